@@ -65,6 +65,12 @@ def gen_sentence(rnd, style):
         # v_align or a height -- whatever else comes next
         tail = rnd.choice(["", "#", "##", "#.5", "#%06X" % rnd.getrandbits(24), "#%06x" % rnd.getrandbits(24), "#aBcDeF", "#FFFFFF", "+L", "+W", "+z1", "+m1", "#00FF00+L", " "])
         return rnd.choice(["", "<", "|", ">"]) + rnd.choice(["", "0", "7", "12"]) + "." + tail
+    if rnd.random() < 0.04:
+        # a colour field with one character that is next to the hexadecimal digits in the
+        # character table, or a letter of the specifier alphabet itself
+        col = list("%06x" % rnd.getrandbits(24))
+        col[rnd.randrange(6)] = rnd.choice("GgZz[\\]^_`@/:LWAzmc.-+ ")
+        return rnd.choice(["", "<", "|10", ">5.^3", ".-4"]) + "#" + "".join(col) + rnd.choice(["", "", "+L", "+W", "+m1"])
     parts = []
     if rnd.random() < 0.5:
         parts.append(rnd.choice("<|>"))
@@ -218,6 +224,15 @@ def check_one(spec, style, st, res, env, via_draw=False):
         elif got not in allowed:
             res.violation("C19:wrong-error:%s" % style, "%s spec %r raised %s, documented: %s (%s)" % (style, spec, got, sorted(allowed), info), dict(spec=spec, style=style))
         else:
+            # an error may have come from deeper down (PIL refusing a colour the parser let
+            # through, say): the same specifier on an image without transparency -- where
+            # nothing looks at the colour -- must be rejected just the same
+            try:
+                format(st.images_opaque[style], spec)
+                res.violation("C19:accepted-invalid:%s" % style, "%s spec %r accepted for an image without transparency (rejected with %s for one with), but: %s" % (style, spec, got, info), dict(spec=spec, style=style))
+                return
+            except Exception:
+                pass
             after = snapshot(st.images)
             if after != before:
                 res.violation("C19:side-effect:%s" % style, "%s spec %r rejected but state changed" % (style, spec), dict(spec=spec, style=style))
@@ -249,6 +264,7 @@ def run_shard(shard, env):
     src.putdata([(250, 10, 20, 255), (30, 240, 50, 100), (60, 70, 230, 30), (5, 5, 5, 0)])
     st.images = {name: cls(src, width=2, height=1) for name, cls in style_classes().items()}
     st.images_dyn = {name: cls(src) for name, cls in style_classes().items()}
+    st.images_opaque = {name: cls(src.convert("RGB"), width=2, height=1) for name, cls in style_classes().items()}
     st.snap = snapshot(st.images)
     try:
         if "replay" in shard:
